@@ -103,7 +103,20 @@ func C06(c *core.Ctx) {
 		maxN = 5
 	}
 	nan := math.NaN()
-	streams := enumTargets(maxN, []float64{1, 2, nan}, []int64{1, 2})
+	// distances 0 (a target identical to the query on every compared site: the smallest value there is, and no reason to
+	// stop looking - a later target at 0 may be more complete), 1, 2 and undefined
+	streams := enumTargets(3, []float64{0, 1, 2, nan}, []int64{1, 2})
+	if maxN > 3 {
+		streams = enumTargets(maxN, []float64{0, 1, nan}, []int64{1, 2})
+		for _, ts := range enumTargets(4, []float64{0, 1, 2, nan}, []int64{1, 2}) {
+			for _, t := range ts {
+				if t.dist == 2 {
+					streams = append(streams, ts)
+					break
+				}
+			}
+		}
+	}
 	mkRec := func(id string, idx int64, base byte, score int64) *eval.StructVal {
 		r := absValue(recT, id, eval.K(1)).(*eval.StructVal)
 		r.F["ID"] = eval.S(id)
@@ -206,7 +219,7 @@ func C06(c *core.Ctx) {
 		for _, run := range catchmentRuns(streams, maxN) {
 			ts, measure := run.ts, run.measure
 			for K := 1; K <= maxN; K++ {
-				for _, D := range []float64{-1, 1} {
+				for _, D := range []float64{-1, 0, 1} {
 					n++
 					ev := newEval(c)
 					table := map[string]float64{}
@@ -224,7 +237,7 @@ func C06(c *core.Ctx) {
 					}
 					for _, sc := range ev.SortCalls {
 						sortPos = sc.Pos
-						if sc.Func != "sort.SliceStable" {
+						if unstableRecordSort(sc) {
 							stableOK = false
 						}
 					}
@@ -667,4 +680,14 @@ func c06Writers(c *core.Ctx) {
 		}
 	}
 	c.Ob("R6/writers/documented-layout", len(bad) == 0, w1.Pos(), "%s", first(bad, 3))
+}
+
+// unstableRecordSort: a sort whose ties are not kept in input order. sort.Strings / Ints / Float64s order plain values
+// (two elements that compare equal ARE equal, so their order cannot be observed) and do not count.
+func unstableRecordSort(sc eval.SortCall) bool {
+	switch sc.Func {
+	case "sort.SliceStable", "sort.Stable", "sort.Strings", "sort.Ints", "sort.Float64s", "slices.SortStableFunc":
+		return false
+	}
+	return true
 }
